@@ -31,6 +31,11 @@
                                                            -> sort_as_coded_sorted_permutation,
                                                               sort_as_coded_total (pointer-level
                                                               transcription qs_loop/qs_sort, fuel = length),
+                                                              sort_as_coded_depth_log (at most log2(length)
+                                                              frames of QuickSort::sort are live at any time:
+                                                              "all input orders" includes the long sorted and
+                                                              reversed ones, on which two plain recursive calls
+                                                              went length-1 deep: sort_depth_two_calls_example),
                                                               sort_as_coded_is_value_sort (it computes the
                                                               value-level model the drivers run),
                                                               sort_sorted_permutation (any key order),
@@ -259,20 +264,42 @@ Theorem sort_as_coded_sorted_permutation : forall (key : Z -> Z) (l : list Z),
 Proof. exact sort_ptr_correct. Qed.
 Print Assumptions sort_as_coded_sorted_permutation.
 
-(* sort(left, right) touches nothing outside left..right *)
+(* sort(left, right) touches nothing outside left..right; the number of frames of QuickSort::sort that are
+   live at the deepest point is qdepth of the segment *)
 Theorem sort_as_coded_segment : forall (key : Z -> Z) (fuel : nat) (pre seg post : list Z),
     (2 <= length seg)%nat -> (length seg <= fuel)%nat ->
     qs_sort key fuel (length pre) (length pre + length seg - 1) (pre ++ seg ++ post) =
-    option_map (fun r => pre ++ r ++ post) (qsort key fuel seg).
+    option_map (fun r => (pre ++ r ++ post, qdepth key fuel seg)) (qsort key fuel seg).
 Proof. exact qs_sort_refines. Qed.
 Print Assumptions sort_as_coded_segment.
+
+(* the recursion is at most log2(length) deep, for every input order and every key order: the side sorted
+   by a recursive call holds at most half of the nodes, the other side is sorted in the same frame *)
+Theorem sort_depth_log : forall (key : Z -> Z) (fuel : nat) (l : list Z),
+    (2 <= length l)%nat -> (length l <= fuel)%nat -> (2 ^ qdepth key fuel l <= length l)%nat.
+Proof. exact qdepth_log. Qed.
+Print Assumptions sort_depth_log.
+
+Theorem sort_as_coded_depth_log : forall (key : Z -> Z) (l r : list Z) (d : nat), (2 <= length l)%nat ->
+    qs_sort key (length l) 0 (length l - 1) l = Some (r, d) -> (2 ^ d <= length l)%nat.
+Proof. exact sort_ptr_depth_log. Qed.
+Print Assumptions sort_as_coded_depth_log.
 
 Example sort_as_coded_nonvacuous :
   sort_ptr key_full [5; 2; 9; 2; 7; 1; 8] = [1; 2; 2; 5; 7; 8; 9]
   /\ sort_ptr key_kv [33; 17; 34; 1; 18; 35] = [1; 18; 17; 33; 34; 35]
-  /\ qs_sort key_full 3 1 3 [9; 3; 2; 1; 0] = Some [9; 1; 2; 3; 0]
-  /\ qs_loop key_full 4 0 4 [5; 7; 2; 8; 1] 0 0 0 = Some ([5; 2; 1; 8; 7], 1%nat, 2%nat).
+  /\ qs_sort key_full 3 1 3 [9; 3; 2; 1; 0] = Some ([9; 1; 2; 3; 0], 1%nat)
+  /\ qs_loop key_full 4 0 4 [5; 7; 2; 8; 1] 0 0 0 0 0 = Some ([5; 2; 1; 8; 7], 1%nat, 2%nat, 2%nat, 2%nat)
+  /\ qs_sort key_full 7 0 6 [5; 2; 9; 2; 7; 1; 8] = Some ([1; 2; 2; 5; 7; 8; 9], 2%nat).
 Proof. vm_compute. repeat split; reflexivity. Qed.
+
+(* 64 values in ascending and in descending order: one live frame after the repair (every round continues
+   in the same frame); with two plain recursive calls (List::sort before fixes/C03/03) 63 *)
+Example sort_depth_two_calls_example :
+  let up := map Z.of_nat (seq 0 64) in
+  (qdepth key_full 64 up, qdepth key_full 64 (rev up), qdepth2 key_full 64 up, qdepth2 key_full 64 (rev up))
+  = (1, 1, 63, 63)%nat.
+Proof. vm_compute. reflexivity. Qed.
 
 (* ---- List / PoolList relinking at the level of pointers (SeqLinkModel) --------------------------- *)
 (* `repr st l`: following next from _begin gives exactly the nodes of l with matching prev pointers
